@@ -108,6 +108,7 @@ type Options struct {
 	MaxTime    time.Duration
 	YieldFiles []string // files whose statement-level yields are scheduling points ("*" = all)
 	AutoTick   time.Duration
+	StartClock time.Duration // virtual clock offset at which every execution starts
 }
 
 var runMu sync.Mutex
@@ -139,7 +140,7 @@ func Run(opt Options, body func()) *Sched {
 		}
 		s.yieldFiles[f] = true
 	}
-	s.now = time.Duration(virtualOffset.Load())
+	s.now = opt.StartClock
 	s.start = s.now
 	active.Store(s)
 	t := s.newThread("main", false)
@@ -170,7 +171,6 @@ func Run(opt Options, body func()) *Sched {
 			s.Diverged = fmt.Sprintf("thread t%d:%s did not unwind (blocked natively at %s)", th.id, th.name, th.site)
 		}
 	}
-	virtualOffset.Store(int64(s.now))
 	active.Store(nil)
 	return s
 }
